@@ -2,7 +2,7 @@
 monotone - the control-flow rules over every rule class's count()."""
 import ast
 
-from ..model import AnalysisError, need, call_name, const_str, unparse
+from ..model import AnalysisError, need, call_name, const_str, unparse, alpha_body, alpha_src
 from ..cfg import cfg_of, calls_at
 from ..pathfacts import Atoms, search, describe, bool_summary
 from ..prov import fmt_states
@@ -472,34 +472,44 @@ def _single_return(f):
 def r00_helper_semantics(ctx):
     """Election.seatsLeftToFill / nSeats / nBallots, Ballot.topRank / topCand / restart, Candidate.zeroVote / addVote /
     surplus, Candidates.byCid / byVote / select(order=...): the facts G, S, the alias table and the Gregory rules are
-    stated in terms of these helpers, so their bodies are obligations too."""
+    stated in terms of these helpers, so their bodies are obligations too.  Bodies are compared with a reference
+    definition modulo consistent renaming of parameters and locals (model.alpha_body), not as text."""
     R = 'R00'
     repo = ctx.repo
     n = 0
 
-    def expect(qn, want, what, norm=lambda s: s):
+    def expect(qn, refs, what, prefix=None):
+        """the body of qn equals (modulo renaming) one of the reference definitions; prefix=k compares the first k statements"""
         nonlocal n
         f = repo.func(qn)
-        v = _single_return(f)
-        got = norm(unparse(v)) if v is not None else None
+        got = alpha_body(f.node)
+        wants = [alpha_src(r) for r in ([refs] if isinstance(refs, str) else refs)]
+        if prefix:
+            got_c, wants = got[:prefix], [w[:prefix] for w in wants]
+        else:
+            got_c = got
         n += 1
-        wants = want if isinstance(want, (list, tuple)) else [want]
-        ctx.check(got in wants, R, f.node, f, what, 'return %s' % got, '%s returns `%s`, expected `%s`' % (qn.split('.')[-1], got, wants[0]))
+        body = [unparse(s_) for s_ in f.node.body if not (isinstance(s_, ast.Expr) and isinstance(s_.value, ast.Constant))]
+        ctx.check(got_c in wants, R, f.node, f, what, '; '.join(body)[:200],
+                  '%s is `%s`, expected (up to renaming) `%s`' % (qn.split('.')[-1], '; '.join(body)[:200], '; '.join(
+                      l.strip() for l in ([refs] if isinstance(refs, str) else refs)[0].strip().splitlines()[1:])))
 
-    expect('droop.election.Election.seatsLeftToFill', 'self.nSeats - len(self.C.elected())',
+    expect('droop.election.Election.seatsLeftToFill', 'def f(self):\n return self.nSeats - len(self.C.elected())',
            'seats left to fill = seats - number of elected candidates (pending included)')
-    expect('droop.election.Election.nSeats', 'self.electionProfile.nSeats', 'E.nSeats is the profile\'s number of seats')
-    expect('droop.election.Election.nBallots', 'self.electionProfile.nBallots', 'E.nBallots is the profile\'s ballot total')
-    expect('droop.election.Election.candidate', 'self.C.byCid(cid)', 'E.candidate(cid) looks the candidate up by id')
-    expect('droop.candidates.Candidates.byCid', 'self._byCid[cid]', 'Candidates.byCid looks up the side table by id')
-    expect('droop.election.Election.Ballot.topRank', 'self.ranking[self.index] if self.index < len(self.ranking) else None',
+    expect('droop.election.Election.nSeats', 'def f(self):\n return self.electionProfile.nSeats', 'E.nSeats is the profile\'s number of seats')
+    expect('droop.election.Election.nBallots', 'def f(self):\n return self.electionProfile.nBallots', 'E.nBallots is the profile\'s ballot total')
+    expect('droop.election.Election.candidate', 'def f(self, cid):\n return self.C.byCid(cid)', 'E.candidate(cid) looks the candidate up by id')
+    expect('droop.candidates.Candidates.byCid', 'def f(self, cid):\n return self._byCid[cid]', 'Candidates.byCid looks up the side table by id')
+    expect('droop.election.Election.Ballot.topRank', 'def f(self):\n return self.ranking[self.index] if self.index < len(self.ranking) else None',
            'Ballot.topRank is the rank at the current index (None when exhausted)')
     expect('droop.election.Election.Ballot.topCand',
-           'self.E.C.byCid(self.ranking[self.index]) if self.index < len(self.ranking) else None',
+           'def f(self):\n return self.E.C.byCid(self.ranking[self.index]) if self.index < len(self.ranking) else None',
            'Ballot.topCand is the candidate at the current index (None when exhausted)')
-    expect('droop.candidates.Candidates.byVote', 'sorted(candidates, key=lambda c: (c.vote, c.order), reverse=reverse)',
+    expect('droop.candidates.Candidates.byVote',
+           'def f(self, candidates, reverse=False):\n return sorted(candidates, key=lambda c: (c.vote, c.order), reverse=reverse)',
            'Candidates.byVote sorts by ascending tally (ballot order only separates equal tallies)')
-    expect('droop.candidates.Candidates.byBallotOrder', 'sorted(candidates, key=lambda c: c.order, reverse=reverse)',
+    expect('droop.candidates.Candidates.byBallotOrder',
+           'def f(self, candidates, reverse=False):\n return sorted(candidates, key=lambda c: c.order, reverse=reverse)',
            'Candidates.byBallotOrder sorts by ballot order')
     # defaults reverse=False
     for nm in ('byVote', 'byBallotOrder', 'byTieOrder', 'select', 'hopeful', 'elected', 'pending'):
@@ -513,44 +523,49 @@ def r00_helper_semantics(ctx):
                       'reverse defaults to False', 'reverse defaults to %s' % unparse(d), nontrivial=False)
     # side table: add() registers the candidate under its own id
     add = repo.func('droop.candidates.Candidates.add')
-    ok = any(isinstance(s, ast.Assign) and unparse(s.targets[0]) == 'self._byCid[c.cid]' and unparse(s.value) == 'c' for s in add.own_nodes())
+    p0 = add.params[1] if len(add.params) > 1 else None
+    ok = any(isinstance(s_, ast.Assign) and isinstance(s_.targets[0], ast.Subscript) and unparse(s_.targets[0].value) == 'self._byCid'
+             and unparse(s_.targets[0].slice) == '%s.cid' % p0 and unparse(s_.value) == p0 for s_ in add.own_nodes())
     n += 1
     ctx.check(ok, R, add.node, add, 'Candidates.add registers each candidate under its own id', 'self._byCid[c.cid] = c', 'side-table registration changed')
-    # select(order=...) dispatches to the sorter of the same name
+    # select(order=...) dispatches to the sorter of the same name, applied to the list selected by state
     sel = repo.func('droop.candidates.Candidates.select')
     disp = {}
-    for s in sel.own_nodes():
-        if isinstance(s, ast.If) and isinstance(s.test, ast.Compare) and unparse(s.test.left) == 'order' and s.body and isinstance(s.body[0], ast.Return):
-            disp[const_str(s.test.comparators[0])] = unparse(s.body[0].value)
-    want = {'none': 'candidates', 'ballot': 'self.byBallotOrder(candidates, reverse=reverse)', 'tie': 'self.byTieOrder(candidates, reverse=reverse)',
-            'vote': 'self.byVote(candidates, reverse=reverse)'}
+    for s_ in sel.own_nodes():
+        if isinstance(s_, ast.If) and isinstance(s_.test, ast.Compare) and unparse(s_.test.left) == 'order' and s_.body and isinstance(s_.body[0], ast.Return):
+            v = s_.body[0].value
+            if isinstance(v, ast.Name):
+                disp[const_str(s_.test.comparators[0])] = ('identity', v.id)
+            elif isinstance(v, ast.Call) and isinstance(v.func, ast.Attribute) and unparse(v.func.value) == 'self' and len(v.args) == 1 \
+                    and isinstance(v.args[0], ast.Name) and [(k.arg, unparse(k.value)) for k in v.keywords] == [('reverse', 'reverse')]:
+                disp[const_str(s_.test.comparators[0])] = (v.func.attr, v.args[0].id)
+            else:
+                disp[const_str(s_.test.comparators[0])] = ('?', unparse(v))
+    lists = set(x[1] for x in disp.values())
+    want = {'none': 'identity', 'ballot': 'byBallotOrder', 'tie': 'byTieOrder', 'vote': 'byVote'}
     n += 1
-    ctx.check(disp == want, R, sel.node, sel, 'select(order=x) sorts with the sorter named x', str(disp), 'select() dispatch is %s' % disp)
+    ctx.check({k: v[0] for k, v in disp.items()} == want and len(lists) == 1, R, sel.node, sel, 'select(order=x) sorts with the sorter named x',
+              str({k: v[0] for k, v in disp.items()}), 'select() dispatch is %s' % disp)
     # Candidate helpers
-    cand = repo.cls('droop.candidate.Candidate')
-    for nm, want_ in (('zeroVote', ['self.vote = self.E.V0']), ('addVote', ['self.vote += addValue'])):
-        f = cand.methods.get(nm)
-        need(f is not None, 'Candidate.%s missing' % nm)
-        body = [unparse(s) for s in f.node.body if not (isinstance(s, ast.Expr) and isinstance(s.value, ast.Constant))]
-        n += 1
-        ctx.check(body == want_, R, f.node, f, 'Candidate.%s does what its name says' % nm, '; '.join(body), 'Candidate.%s body is %s' % (nm, body))
-    sp = cand.methods.get('surplus')
-    need(sp is not None, 'Candidate.surplus missing')
-    body = [unparse(s) for s in sp.node.body if not (isinstance(s, ast.Expr) and isinstance(s.value, ast.Constant))]
-    n += 1
-    ctx.check(body == ['s = self.vote - self.E.quota', 'return self.E.V0 if s < self.E.V0 else s'], R, sp.node, sp,
-              'Candidate.surplus is max(tally - quota, 0)', '; '.join(body), 'Candidate.surplus body is %s' % body)
+    expect('droop.candidate.Candidate.zeroVote', 'def f(self):\n self.vote = self.E.V0', 'Candidate.zeroVote does what its name says')
+    expect('droop.candidate.Candidate.addVote', 'def f(self, addValue):\n self.vote += addValue', 'Candidate.addVote does what its name says')
+    expect('droop.candidate.Candidate.surplus',
+           ['def f(self):\n s = self.vote - self.E.quota\n return self.E.V0 if s < self.E.V0 else s',
+            'def f(self):\n return max(self.vote - self.E.quota, self.E.V0)',
+            'def f(self):\n return max(self.E.V0, self.vote - self.E.quota)'],
+           'Candidate.surplus is max(tally - quota, 0)')
     # Ballot.restart (QPQ): back to the first preference
-    rs = repo.func('droop.election.Election.Ballot.restart')
-    body = [unparse(s) for s in rs.node.body if not (isinstance(s, ast.Expr) and isinstance(s.value, ast.Constant))]
-    n += 1
-    ctx.check(body[:2] == ['self.index = 0', 'self.weight = weight'], R, rs.node, rs, 'Ballot.restart goes back to the first preference with the given weight',
-              '; '.join(body), 'Ballot.restart body is %s' % body, nontrivial=False)
+    expect('droop.election.Election.Ballot.restart', 'def f(self, weight):\n self.index = 0\n self.weight = weight',
+           'Ballot.restart goes back to the first preference with the given weight', prefix=2)
     # Ballot.__init__: multiplier is a value of the election's arithmetic, weight starts at one
     bi = repo.func('droop.election.Election.Ballot.__init__')
-    txt = {unparse(s.targets[0]): unparse(s.value) for s in bi.own_nodes() if isinstance(s, ast.Assign)}
+    txt = {unparse(s_.targets[0]): ctx.canon(s_.value, bi) or unparse(s_.value) for s_ in bi.own_nodes() if isinstance(s_, ast.Assign)}
+    mult = [s_.value for s_ in bi.own_nodes() if isinstance(s_, ast.Assign) and unparse(s_.targets[0]) == 'self.multiplier']
+    okm = len(mult) == 1 and isinstance(mult[0], ast.Call) and ctx.canon(mult[0].func, bi) == 'E.V' and len(mult[0].args) == 1 \
+        and isinstance(mult[0].args[0], ast.Name) and mult[0].args[0].id in bi.params
+    rk = [s_.value for s_ in bi.own_nodes() if isinstance(s_, ast.Assign) and unparse(s_.targets[0]) == 'self.ranking']
+    okr = len(rk) == 1 and isinstance(rk[0], ast.Name) and rk[0].id in bi.params
     n += 1
-    ctx.check(txt.get('self.multiplier') == 'E.V(multiplier)' and txt.get('self.weight') == 'E.V1' and txt.get('self.index') == '0'
-              and txt.get('self.ranking') == 'ranking', R, bi.node, bi,
+    ctx.check(okm and okr and txt.get('self.weight') == 'E.V1' and txt.get('self.index') == '0', R, bi.node, bi,
               'a ballot starts at its first preference with weight one and the line\'s multiplier', str(txt), 'Ballot.__init__ changed: %s' % txt)
     ctx.floor(R, 'helper definitions', n, 18)
